@@ -43,13 +43,34 @@ struct StrPay {
     static Value make(K k, int id) { return Value(k, radix_pay(id)); }
     static K key_of(const Value& v) { return v.first; }
     static int id_of(const Value& v) { return radix_pay_id(v.second); }
-    static size_t emplace(Heap& h, K k, int id) {
-        if (id & 1) return h.emplace(k, k, radix_pay(id)); // rvalue string
-        const std::string s = radix_pay(id);
-        return h.emplace(k, k, s);
+    //! the payload argument of the emplace family in three value categories (chosen by the identity number):
+    //! rvalue, const lvalue, NON-CONST lvalue — the last one must be copied, the caller's string keeps its value
+    template <class F>
+    static auto with_payload(int id, F f) -> decltype(f(std::declval<std::string&>())) {
+        if (id % 3 == 0) return f(radix_pay(id));
+        if (id % 3 == 1) {
+            const std::string s = radix_pay(id);
+            return f(s);
+        }
+        std::string s = radix_pay(id);
+        struct Check {
+            std::string& s;
+            int id;
+            ~Check() noexcept(false) {
+                if (s != radix_pay(id)) pbt::fatal("C13/radix-lvalue-argument-changed", "the caller's non-const lvalue payload argument of an emplace was modified (moved from): now '" + s + "'");
+            }
+        } chk{s, id};
+        return f(s);
     }
-    static size_t emplace_keyfirst(Heap& h, K k, int id) { return h.emplace_keyfirst(k, radix_pay(id)); }
-    static void emplace_in_bucket(Heap& h, size_t idx, K k, int id) { h.emplace_in_bucket(idx, k, radix_pay(id)); }
+    static size_t emplace(Heap& h, K k, int id) {
+        return with_payload(id, [&](auto&& s) { return h.emplace(k, k, std::forward<decltype(s)>(s)); });
+    }
+    static size_t emplace_keyfirst(Heap& h, K k, int id) {
+        return with_payload(id, [&](auto&& s) { return h.emplace_keyfirst(k, std::forward<decltype(s)>(s)); });
+    }
+    static void emplace_in_bucket(Heap& h, size_t idx, K k, int id) {
+        with_payload(id, [&](auto&& s) { h.emplace_in_bucket(idx, k, std::forward<decltype(s)>(s)); return 0; });
+    }
     static const char* name() { return "RadixHeapPair<K, std::string>"; }
 };
 
